@@ -15,7 +15,9 @@ Inductive step :=
   | KShowMany (l : list period)    (* texts of several periods (collision search) *)
   | KDisk (l : list period)        (* OnDiskStorage: file name of each period, key restored from it *)
   | KParseShow (s : string)        (* q = periods.period(s); then str(q), period(str(q)), str again *)
-  | KParseShowInst (s : string).   (* i = periods.instant(s); then str(i), instant(str(i)) *)
+  | KParseShowInst (s : string)    (* i = periods.instant(s); then str(i), instant(str(i)) *)
+  | KBuildShow (v : input)         (* q = periods.period(v) for any argument type; then as KParseShow *)
+  | KBuildShowInst (v : input).    (* i = periods.instant(v) for any argument type; then as KParseShowInst *)
 
 Definition unit_code (u : unit_t) : Z :=
   match u with Weekday => 0 | Week => 1 | Day => 2 | Month => 3 | Year => 4 | Eternity => 5 end.
@@ -60,6 +62,16 @@ Definition run_step (c : step) : obs :=
       end
   | KParseShowInst t =>
       match parse_instant t with
+      | Err e => OErr e
+      | Ok d => OL [odate d; round_inst_obs d]
+      end
+  | KBuildShow v =>
+      match period_of v with
+      | Err e => OErr e
+      | Ok q => OL [operiod q; round_obs q]
+      end
+  | KBuildShowInst v =>
+      match instant_of v with
       | Err e => OErr e
       | Ok d => OL [odate d; round_inst_obs d]
       end
